@@ -91,6 +91,105 @@ func c15RunSerial(pred, subj c04Session) explore.Result {
 	return res
 }
 
+// c15Stepwise serves sessions on ONE server, message by message, in the given order of turns: turn k delivers the
+// next message of connection order[k] and waits until the whole server is quiescent again. Returns per connection
+// its canonical transcript, the callbacks that ran during its turns and its final status.
+func c15Stepwise(auth bool, sessions []c04Session, order []int) (ts [][]string, es [][]string, sts []string, engine string) {
+	srv, w, err := c15NewServer(auth)
+	if err != nil {
+		return nil, nil, nil, err.Error()
+	}
+	defer srv.Stop()
+	w.rec.Conn = nil
+	conns := make([]*harness.Conn, len(sessions))
+	next := make([]int, len(sessions))
+	es = make([][]string, len(sessions))
+	closed := make([]bool, len(sessions))
+	last := make([]string, len(sessions))
+	turn := func(i int) {
+		n := len(w.events)
+		switch {
+		case closed[i]:
+		case conns[i] == nil:
+			conns[i] = srv.ConnectWith(memnet.NewConn(fmt.Sprintf("mem:c%d", i)))
+			fallthrough
+		case next[i] < len(sessions[i].Segs):
+			_, st := conns[i].Step(sessions[i].Segs[next[i]])
+			next[i]++
+			closed[i] = st == memnet.Closed
+			last[i] = st.String()
+		default:
+			_, st := conns[i].End()
+			closed[i] = true
+			last[i] = st.String()
+		}
+		harness.Settle()
+		es[i] = append(es[i], w.events[n:]...)
+	}
+	for _, i := range order {
+		turn(i)
+	}
+	for i := range sessions { // whatever is left, connection by connection
+		for !closed[i] {
+			turn(i)
+		}
+	}
+	for i := range sessions {
+		t, _ := harness.CanonTranscript(conns[i].C.Output())
+		ts = append(ts, t)
+		sts = append(sts, last[i])
+	}
+	return ts, es, sts, ""
+}
+
+var c15StepAlone = map[string][3]any{}
+
+// c15RunMerged: two connections are open at the same time and take turns message by message (A sends i messages,
+// B sends j, A finishes, B finishes): each one's transcript and callbacks equal those of the same session served
+// alone, message by message, on a fresh server.
+func c15RunMerged(a, b c04Session, i, j int) explore.Result {
+	var res explore.Result
+	res.Outcome = "merged"
+	res.Key = fmt.Sprint(a.Name, " || ", b.Name, i, j)
+	var order []int
+	for k := 0; k < i; k++ {
+		order = append(order, 0)
+	}
+	for k := 0; k < j; k++ {
+		order = append(order, 1)
+	}
+	for k := i; k <= len(a.Segs); k++ {
+		order = append(order, 0)
+	}
+	ts, es, sts, eng := c15Stepwise(a.Auth, []c04Session{a, b}, order)
+	if eng != "" {
+		res.Engine = eng
+		return res
+	}
+	for n, s := range []c04Session{a, b} {
+		alone, ok := c15StepAlone[s.Name]
+		if !ok {
+			t, e, st, eng := c15Stepwise(s.Auth, []c04Session{s}, nil)
+			if eng != "" {
+				res.Engine = eng
+				return res
+			}
+			alone = [3]any{t[0], e[0], st[0]}
+			c15StepAlone[s.Name] = alone
+		}
+		at, ae, ast := alone[0].([]string), alone[1].([]string), alone[2].(string)
+		what := fmt.Sprintf("connection %c (session %q) taking turns with %q (A sends %d messages, B sends %d, A finishes, B finishes)", 'A'+n, s.Name, []c04Session{b, a}[n].Name, i, j)
+		if !sameStrings(ts[n], at) || sts[n] != ast {
+			res.Fail("transcript-differs-from-alone", fmt.Sprintf("%s received\n  %v (%s)\nbut served alone it receives\n  %v (%s)", what, clipList(ts[n]), sts[n], clipList(at), ast))
+		}
+		if !sameStrings(es[n], ae) {
+			res.Fail("callbacks-differ-from-alone", fmt.Sprintf("%s: callbacks\n  %v\nalone:\n  %v", what, clipList(es[n]), clipList(ae)))
+		}
+	}
+	res.Trans = []string{"two open connections|turns|each as alone"}
+	return res
+}
+
 func clipList(s []string) []string {
 	if len(s) > 14 {
 		return append(append([]string(nil), s[:14]...), fmt.Sprintf("… (%d more)", len(s)-14))
@@ -152,6 +251,30 @@ func init() {
 						r.Outcome = "silent-neighbour"
 						return r
 					}})
+			}
+			// two connections open at the same time, taking turns message by message
+			{
+				corpus := c15Corpus()
+				for _, a := range corpus {
+					for _, b := range corpus {
+						if a.Auth != b.Auth {
+							continue
+						}
+						for i := 1; i <= len(a.Segs); i++ {
+							for j := 1; j <= len(b.Segs)+1; j++ {
+								if tier != "thorough" && i > 1 && i < len(a.Segs) && j > 1 && j < len(b.Segs) && (i+j)%2 == 1 {
+									continue // quick: every second inner turn pattern
+								}
+								a, b, i, j := a, b, i, j
+								emit(explore.Case{Family: "message-turns", Size: 3,
+									Desc: func() any {
+										return map[string]any{"connection_A": a.Name, "connection_B": b.Name, "A_sends_first": i, "then_B_sends": j, "then": "A finishes, B finishes"}
+									},
+									Run: func() explore.Result { return c15RunMerged(a, b, i, j) }})
+							}
+						}
+					}
+				}
 			}
 			corpus := c15Corpus()
 			for _, pred := range corpus {
